@@ -94,10 +94,10 @@ Definition parse_primary (h : bytes) : res rerr phdr :=
       let go (big : bool) : res rerr phdr :=
         match rest with
         | ty :: fl :: _ver :: tl =>
-            (* Type is Deserialize_repr (1..4), flags is BitFlags<Flags> (bits 1,2,4), serial is NonZeroU32 *)
+            (* Type is Deserialize_repr (1..4); flags: BitFlags::from_bits_truncate, unknown bits are ignored
+               (fix 0d33c3d1), so any flags byte is accepted; serial is NonZeroU32 *)
             if (lenN tl <? 12) then Err EVariant
             else if negb ((1 <=? bn ty) && (bn ty <=? 4)) then Err EVariant
-            else if negb (N.land (bn fl) 248 =? 0) then Err EVariant
             else if u32_of big (skipn 4 tl) =? 0 then Err EVariant
             else Ok {| ph_big := big; ph_body_len := u32_of big tl; ph_fields_len := u32_of big (skipn 8 tl) |}
         | _ => Err EVariant
@@ -108,94 +108,11 @@ Definition parse_primary (h : bytes) : res rerr phdr :=
   end.
 
 (* ---- the header-fields deserializer, reduced to what the reader needs: Ok (value of UNIX_FDS if present).
-   It is a parameter of the model ([parse_fields]); the theorems hold for any instance.  [std_fields] is the
-   instance used by the line driver: arrays of well-formed standard fields (codes 1..9 with the types of the
-   D-Bus specification), last occurrence wins.  The argument is bytes[12 .. header_len], i.e. the u32 array
-   length followed by the array, which starts at absolute offset 16.  Name/path syntax inside the strings is
-   the business of C10/C11, not modelled here. ---- *)
+   It is a parameter of the model ([parse_fields]); the theorems hold for any instance.  The instance used by the
+   line driver is C14/Fields.v: the model of message::Fields deserialisation maintained for C11-C13 (C11/Model.v
+   [de_fields]: unknown codes skipped, code 0 rejected, names validated), so there is one model of that code, not two.
+   The argument is bytes[12 .. header_len], i.e. the u32 array length followed by the array (absolute offset 16). ---- *)
 Definition parse_fields := bool -> bytes -> res rerr (option N).
-
-Definition skip_zero_pad (n : N) (l : bytes) : option bytes :=
-  let k := N.to_nat n in
-  if (length l <? k)%nat then None
-  else if forallb (fun b => bn b =? 0) (firstn k l) then Some (skipn k l) else None.
-
-Definition pad4 (n : N) : N := (4 - n mod 4) mod 4.
-
-(* a D-Bus string body: u32 length, bytes, NUL *)
-Definition skip_str (big : bool) (pos : N) (l : bytes) : option (N * bytes) :=
-  match skip_zero_pad (pad4 pos) l with
-  | None => None
-  | Some l1 =>
-      if (length l1 <? 4)%nat then None else
-      let n := u32_of big l1 in
-      let l2 := skipn 4 l1 in
-      if lenN l2 <? n + 1 then None else
-      match skipn (N.to_nat n) l2 with
-      | z :: l3 => if bn z =? 0 then Some (pos + pad4 pos + 4 + n + 1, l3) else None
-      | [] => None
-      end
-  end.
-
-Definition expected_sig (code : N) : option byte :=
-  match code with
-  | 1 => Some "o"%byte | 2 | 3 | 4 | 6 | 7 => Some "s"%byte | 5 | 9 => Some "u"%byte | 8 => Some "g"%byte
-  | _ => None
-  end.
-
-Fixpoint fields_loop (big : bool) (fuel : nat) (pos : N) (l : bytes) (acc : option N) : res rerr (option N) :=
-  match l with
-  | [] => Ok acc
-  | _ :: _ =>
-    match fuel with
-    | O => Err EFuel
-    | S f =>
-      match skip_zero_pad (pad8 pos) l with
-      | None => Err EVariant
-      | Some l0 =>
-        let pos0 := pos + pad8 pos in
-        match l0 with
-        | code :: one :: sg :: z :: l1 =>
-            if negb ((bn one =? 1) && (bn z =? 0)) then Err EVariant else
-            match expected_sig (bn code) with
-            | None => Err EVariant
-            | Some want =>
-                if negb (beq sg want) then Err EVariant else
-                let pos1 := pos0 + 4 in
-                if beq sg "u"%byte then
-                  (* pos1 is 4-aligned already *)
-                  if (length l1 <? 4)%nat then Err EVariant else
-                  let v := u32_of big l1 in
-                  if (bn code =? 5) && (v =? 0) then Err EVariant else
-                  fields_loop big f (pos1 + 4) (skipn 4 l1) (if bn code =? 9 then Some v else acc)
-                else if beq sg "g"%byte then
-                  match l1 with
-                  | n :: l2 =>
-                      if lenN l2 <? bn n + 1 then Err EVariant else
-                      match skipn (N.to_nat (bn n)) l2 with
-                      | z2 :: l3 => if bn z2 =? 0 then fields_loop big f (pos1 + 1 + bn n + 1) l3 acc else Err EVariant
-                      | [] => Err EVariant
-                      end
-                  | [] => Err EVariant
-                  end
-                else
-                  match skip_str big pos1 l1 with
-                  | Some (pos2, l2) => fields_loop big f pos2 l2 acc
-                  | None => Err EVariant
-                  end
-            end
-        | _ => Err EVariant
-        end
-      end
-    end
-  end.
-
-Definition std_fields : parse_fields := fun big fb =>
-  if (length fb <? 4)%nat then Err EVariant else
-  let n := u32_of big fb in
-  let body := skipn 4 fb in
-  if negb (lenN body =? n) then Err EVariant else
-  fields_loop big (S (length body)) 16 body None.
 
 (* bytes[a..b] *)
 Definition slice (a b : N) (l : bytes) : bytes := firstn (N.to_nat (b - a)) (skipn (N.to_nat a) l).
